@@ -240,7 +240,7 @@ def exec : List Sexp → String
     | _, _ => "bad-op"
   | [.atom "assert", t, v] =>
     match ty? t, val? v with
-    | some t, some v => if assertOk cfg sfh t v then "ok" else "reported TYPE_MISMATCH"
+    | some t, some v => if assertOk cfg sfh t v then "ok" else "reported PCORE_TYPE_MISMATCH"
     | _, _ => "bad-op"
   | [.atom "rxmatch", src, s] =>
     match src.str?, s.str? with
